@@ -265,6 +265,14 @@ func (s *Store) startOrReuseFile() (fref *FileRef, file File, err error) {
 
 			return fref, file, nil
 		}
+
+		// The top-level collection might have no persisted segments
+		// while its child collections do: keep appending to their file.
+		if fref := s.footer.childFileRef(); fref != nil {
+			file := fref.AddRef()
+
+			return fref, file, nil
+		}
 	}
 
 	return s.startFileLOCKED()
